@@ -192,6 +192,8 @@ class Ex:
             self.ghost: dict = {}
             self.scope = Scope()
             self.held = []
+            self._alias = {}
+            self._stale_alias = set()
             self._iterating = []
             self._decided = {}
             self.stats.paths += 1
@@ -428,6 +430,21 @@ class Ex:
         v = self.ev(s.value)
         for t in s.targets:
             self.assign(t, self._typed_empty(t, v))
+        # `x = self.f[k]` binds x to the very container stored there (containers are values here, objects in Python): a
+        # mutating method called on x later is written through to that location (builtins_model._wb -> write_through)
+        if len(s.targets) == 1 and isinstance(s.targets[0], ast.Name):
+            key = (id(self.scope.vars), s.targets[0].id)
+            if isinstance(s.value, (ast.Subscript, ast.Attribute)) and isinstance(v, (VSet, VList, VDict)):
+                self._alias[key] = s.value
+            else:
+                self._alias.pop(key, None)
+
+    def write_through(self, name_node, new):
+        origin = self._alias.get((id(self.scope.vars), name_node.id)) if isinstance(name_node, ast.Name) else None
+        if origin is not None:
+            keep, stale = dict(self._alias), set(self._stale_alias)
+            self.assign(_as_store(origin), new)
+            self._alias, self._stale_alias = keep, stale
 
     def st_AnnAssign(self, s):
         if s.value is None:
@@ -841,7 +858,15 @@ class Ex:
             return
         raise Unsupported("assign target " + self.site(target))
 
+    def _heap_written(self):
+        # a location an alias points at may have been re-bound: forget the aliases (a later mutation through one of them is
+        # then local only - flagged)
+        if self._alias:
+            self._stale_alias.update(k for k in self._alias)
+            self._alias = {}
+
     def set_field(self, obj: VObj, name, v):
+        self._heap_written()
         h = getattr(self.spec, "on_field", None)
         if h is not None:
             h(self, obj, name, True)
